@@ -3,6 +3,7 @@ import argparse
 import importlib
 import json
 import os
+import subprocess
 import sys
 import traceback
 
@@ -48,7 +49,14 @@ def main():
 
     if a.replay:
         rep = json.load(open(a.replay))
-        fails = plug.replay(ctx, rep)
+        script = ((rep.get("failure") or {}).get("case") or {}).get("script")
+        if script:
+            pr = subprocess.run(["/venv/bin/python", os.path.join(lib.VERIF, script)], cwd=os.path.join(lib.VERIF, os.path.dirname(script)),
+                                env=dict(os.environ, PYTHONPATH="/repo", PYTHONHASHSEED="0", PYTHONDONTWRITEBYTECODE="1"),
+                                stdout=subprocess.PIPE, stderr=subprocess.STDOUT, text=True, timeout=600)
+            fails = {"what": pr.stdout[-1500:]} if pr.returncode == 1 else None
+        else:
+            fails = plug.replay(ctx, rep)
         if fails:
             print("replay: property %s FAILS on this tree: %s" % (prop, json.dumps(fails)[:2000]))
             print("VIOLATION property=%s replay=%s" % (prop, a.replay))
@@ -89,7 +97,6 @@ def main():
         if a.tier == "thorough" and not ctx.broken:
             # independent re-check of the compiled property file and everything it depends on, with the list of axioms
             mod = "PyccoloV." + plug.PROP_FILE.replace(".v", "").replace("/", ".")
-            import subprocess
             try:
                 pr = subprocess.run(["timeout", "1500", "coqchk", "-o", "-silent", "-Q", ".", "PyccoloV", mod], cwd=os.path.join(lib.VERIF, "coq"),
                                     capture_output=True, text=True)
@@ -108,6 +115,29 @@ def main():
     res = plug.run(ctx, model_ok)
     #   res: dict(evaluations, distinct_nontrivial, rule, samples, traces_validated, failures=[...], extra={})
     failures = res.get("failures", [])
+
+    # 3b. script replays: a finding whose observation needs more than the harness of the property offers (code running after the tracing
+    #     context, finalizers, re-instrumentation, exotic scopes) carries a self-contained demonstration under /verif/demos: it imports
+    #     pyccolo from PYTHONPATH (= /repo), exits 1 when the violation shows and 0 when it does not.  A `known` entry is thereby
+    #     re-established on every run; a `fixed` entry is a regression test (exit 1 = the defect is back: a violation).
+    script_runs = 0
+    for k in lib.load_known(prop):
+        if not k.get("script"):
+            continue
+        path = os.path.join(lib.VERIF, k["script"])
+        env = dict(os.environ, PYTHONPATH="/repo", PYTHONHASHSEED="0", PYTHONDONTWRITEBYTECODE="1")
+        try:
+            pr = subprocess.run(["/venv/bin/python", path], cwd=os.path.dirname(path), env=env, stdout=subprocess.PIPE, stderr=subprocess.STDOUT, text=True, timeout=600)
+            rc_, out_ = pr.returncode, pr.stdout
+        except subprocess.TimeoutExpired:
+            rc_, out_ = 124, "timeout"
+        script_runs += 1
+        if rc_ == 1:
+            failures.append({"signature": k["signature"] if k.get("kind") == "known" else "unlisted", "what": "demonstration %s shows the violation: %s" % (k["script"], out_[-600:]),
+                             "kind": "script", "case": {"script": k["script"], "finding": k["id"]}, "kind_": "oracle"})
+        elif rc_ != 0:
+            ctx.tie_broken("correspondence", "demonstration %s of finding %s neither passed nor showed the violation (exit %d)" % (k["script"], k["id"], rc_), out_[-1500:])
+    res.setdefault("distribution", {})["finding_demonstrations_run"] = script_runs
 
     # 4. known findings
     known = lib.load_known(prop)
